@@ -122,3 +122,61 @@ Proof.
              \/ i = 11 \/ i = 12 \/ i = 13 \/ i = 14 \/ i = 15) by Lia.lia.
   repeat (destruct Ei as [Ei|Ei]); subst i; cbn; split; (discriminate || reflexivity).
 Qed.
+
+(* ---- arbitrary nesting (Proofs/NestProofs.v) ----
+   `nest` is the inductive family of balanced nestings: sequences and nestings, to any depth, of
+   PUSHW..POPW, subroutine entry..RSB, [argument pushes] CALL..RET and SAVE %r [clobber r..r8] .. RESTORE %r, each
+   instruction represented by its contract; the contracts are theorems about the dispatch arms (C06_*_contract). *)
+From Dmd Require Import Proofs.NestProofs.
+
+Theorem C06_balanced_nest_keeps_frame :
+  forall m m', nest m m' ->
+    bus_wf (mbus m') /\ R m' R_SP = R m R_SP
+    /\ (forall i, 3 <= i <= 14 -> i <> 11 -> i <> 12 -> R m' i = R m i)          (* r3-r8, FP, AP, PCBP, ISP *)
+    /\ (forall a, RAMB <= a -> a < R m R_SP -> ramb m' a = ramb m a).             (* the stack below SP *)
+Proof.
+  intros m m' N. destruct (nest_frame_kept m m' N) as [W S K B].
+  split; [exact W|]. split; [exact S|]. split; [exact K | exact B].
+Qed.
+Print Assumptions C06_balanced_nest_keeps_frame.
+
+Theorem C06_nested_push_pop_returns_the_word :
+  forall m v m1 m2 dst m3,
+    RAMB <= R m R_SP -> push_like m v m1 -> nest m1 m2 -> pop_like m2 dst m3 -> R m3 dst = w32 v.
+Proof. exact push_nest_pop_value. Qed.
+Print Assumptions C06_nested_push_pop_returns_the_word.
+
+Theorem C06_nested_call_returns_after_the_call :
+  forall m a ret m1 m2 m3,
+    RAMB <= R m R_SP -> call_like m a ret m1 -> nest m1 m2 -> ret_like m2 m3 -> R m3 R_PC = w32 ret.
+Proof. exact call_nest_ret_pc. Qed.
+Print Assumptions C06_nested_call_returns_after_the_call.
+
+(* the contracts are what the instructions do (stack in RAM) *)
+Theorem C06_instruction_contracts :
+  (forall ir m v, iopcode ir = 160 -> bus_wf (mbus m) -> in_ram_w (R m R_SP) -> read_op ir 0 m = Ok v m ->
+     exists m1, exec ir m = Ok (ilen ir) m1 /\ push_like m v m1)
+  /\ (forall m ret pc', bus_wf (mbus m) -> in_ram_w (R m R_SP) ->
+     stack_push ret m = Ok tt (pushed m ret) /\ push_like m ret (setR (pushed m ret) R_PC pc'))
+  /\ (forall ir m r, iopcode ir = 32 -> bus_wf (mbus m) -> in_ram_w (R m R_SP - 4) -> 4 <= R m R_SP < 4294967296 ->
+     omode (op0 ir) = MRegister -> oreg (op0 ir) = Some r -> 0 <= r <= 2 ->
+     exists m3, exec ir m = Ok (ilen ir) m3 /\ pop_like m r m3)
+  /\ (forall ir m, iopcode ir = 120 -> bus_wf (mbus m) -> in_ram_w (R m R_SP - 4) -> 4 <= R m R_SP < 4294967296 ->
+     exists m3, exec ir m = Ok 0 m3 /\ pop_like m R_PC m3)
+  /\ (forall ir m a b, iopcode ir = 44 -> bus_wf (mbus m) -> in_ram_w (R m R_SP) -> in_ram_w (R m R_SP + 4) ->
+     0 <= R m R_AP < 4294967296 -> effective_address ir 0 m = Ok a m -> effective_address ir 1 m = Ok b m ->
+     exists m1, exec ir m = Ok 0 m1 /\ call_like m a (R m R_PC + ilen ir) m1)
+  /\ (forall ir m, iopcode ir = 8 -> bus_wf (mbus m) -> in_ram_w (R m R_SP - 8) -> in_ram_w (R m R_SP - 4) ->
+     R m R_SP < 4294967296 -> exists m3, exec ir m = Ok 0 m3 /\ ret_like m m3)
+  /\ (forall ir m r, iopcode ir = 16 -> oreg (op0 ir) = Some r -> 3 <= r <= 9 -> bus_wf (mbus m) ->
+     in_ram_w (R m R_SP) -> R m R_SP + 28 <= RAME -> (forall i, 0 <= i <= 15 -> 0 <= R m i < 4294967296) ->
+     exists m1, exec ir m = Ok (ilen ir) m1 /\ save_like m r m1)
+  /\ (forall ir m r, iopcode ir = 24 -> oreg (op0 ir) = Some r -> 3 <= r <= 9 -> bus_wf (mbus m) ->
+     RAMB + 28 <= R m R_FP -> R m R_FP <= RAME -> R m R_FP mod 4 = 0 ->
+     exists m3, exec ir m = Ok (ilen ir) m3 /\ restore_like m r m3).
+Proof.
+  split; [exact pushw_contract|]. split; [exact entry_contract|]. split; [exact popw_contract|].
+  split; [exact rsb_contract|]. split; [exact call_contract|]. split; [exact ret_contract|].
+  split; [exact save_contract | exact restore_contract].
+Qed.
+Print Assumptions C06_instruction_contracts.
